@@ -49,6 +49,13 @@ def cells(tier):
                 out.append(cell(f"s{size} M3/{nc} cancelM0(slow ccb) {fn}", sc, MON))
             sc = scen(pool(size), [[M("M", 3, nc)], [FLUSH_RE]], outcomes=["ret", "exc"], ecb="slow", ccb="plain", slow_ids=[0])
             out.append(cell(f"s{size} M3/{nc} slow ecb0 flush-r", sc, MON))
+    # two pools in one loop, each running a map; a task of one is cancelled (also before its first step)
+    for size in [2, "inf"]:
+        if not q:
+            sc = scen([pool(size), pool(size)], [[M("M", 3, 2)], [M("N", 3, 2, p=1)], [cancel(rid("M", 0))]], outcomes=["ret"])
+            out.append(cell(f"T two pools s{size} M3/2|N3/2@1|cancelM0", sc, MON))
+        sc = scen([pool(size), pool(size)], [[M("M", 2, 1)], [M("N", 2, 1, p=1, stars=1)], [cancel(rid("N", 0))]], outcomes=["ret"])
+        out.append(cell(f"two pools s{size} M2/1|*N2/1@1|cancelN0", sc, MON))
     if not q:
         for size in [1, 2]:
             sc = scen(pool(size), [[M("M", 4, 2)], [M("N", 3, 1, stars=1)], [cancel(rid("N", 0))]], outcomes=["ret", "exc"], ecb="slow", slow_ids=[0])
